@@ -16,10 +16,11 @@ import (
 func TestMain(m *testing.M) { hx.Main(m, "C11") }
 
 type cfg struct {
-	T  float64
-	P  uint32
-	CF uint32
-	I  uint32 // StatIntervalInMs: 0 (the default 1000 ms) or a shorter interval; the threshold is per interval
+	T   float64
+	P   uint32
+	CF  uint32
+	I   uint32 // StatIntervalInMs: 0 (the default 1000 ms) or a shorter interval; the threshold is per interval
+	Pre int    // family of the rule the resource carried before (0 = none): the warm-up rule replaces it by a reload
 }
 
 func (c cfg) iv() int {
@@ -36,8 +37,37 @@ func (c cfg) cf() float64 {
 	return float64(c.CF)
 }
 
+// predecessor returns a rule of another family for the same resource and statistic interval (what the resource
+// carried before the warm-up rule was configured); nil for family 0. No traffic runs under it.
+func predecessor(c cfg) *flow.Rule {
+	p := &flow.Rule{Resource: "w", Threshold: 7, StatIntervalInMs: c.I, MaxQueueingTimeMs: 10,
+		LowMemUsageThreshold: 9, HighMemUsageThreshold: 3, MemLowWaterMarkBytes: 1024, MemHighWaterMarkBytes: 2048, WarmUpPeriodSec: 3, WarmUpColdFactor: 2}
+	switch c.Pre {
+	case 1:
+		p.TokenCalculateStrategy, p.ControlBehavior = flow.Direct, flow.Reject
+	case 2:
+		p.TokenCalculateStrategy, p.ControlBehavior = flow.Direct, flow.Throttling
+	case 3:
+		p.TokenCalculateStrategy, p.ControlBehavior = flow.MemoryAdaptive, flow.Reject
+	case 4:
+		p.TokenCalculateStrategy, p.ControlBehavior = flow.MemoryAdaptive, flow.Throttling
+	case 5:
+		p.TokenCalculateStrategy, p.ControlBehavior = flow.WarmUp, flow.Throttling
+	case 6:
+		p.TokenCalculateStrategy, p.ControlBehavior = flow.WarmUp, flow.Reject
+	default:
+		return nil
+	}
+	return p
+}
+
 func loadWarm(t *rapid.T, c cfg) {
 	hx.Reset(hx.Epoch)
+	if p := predecessor(c); p != nil {
+		if _, err := flow.LoadRules([]*flow.Rule{p}); err != nil || len(flow.GetRulesOfResource("w")) != 1 {
+			t.Fatalf("predecessor rule %+v not accepted: %v", p, err)
+		}
+	}
 	r := &flow.Rule{Resource: "w", Threshold: c.T, TokenCalculateStrategy: flow.WarmUp, ControlBehavior: flow.Reject, WarmUpPeriodSec: c.P, WarmUpColdFactor: c.CF, StatIntervalInMs: c.I}
 	if _, err := flow.LoadRules([]*flow.Rule{r}); err != nil {
 		t.Fatalf("LoadRules: %v", err)
@@ -78,7 +108,8 @@ func drawCfg(t *rapid.T) cfg {
 		maxP = 2
 	}
 	return cfg{T: T, P: uint32(rapid.IntRange(1, maxP).Draw(t, "P")), CF: uint32(rapid.SampledFrom([]int{0, 2, 3, 5, 10}).Draw(t, "CF")),
-		I: uint32(rapid.SampledFrom([]int{0, 0, 0, 0, 1000, 500, 250, 2000}).Draw(t, "statIntervalMs"))}
+		I:   uint32(rapid.SampledFrom([]int{0, 0, 0, 0, 1000, 500, 250, 2000}).Draw(t, "statIntervalMs")),
+		Pre: rapid.SampledFrom([]int{0, 0, 0, 1, 2, 3, 4, 5, 6}).Draw(t, "predecessor")}
 }
 
 func TestWarmUpEnvelope(t *testing.T) {
@@ -106,7 +137,8 @@ func TestWarmUpEnvelope(t *testing.T) {
 			scenario = 3
 			c.Excluded("P28")
 		}
-		c.Op("T=%v period=%ds coldFactor=%d statInterval=%dms scenario=%d", g.T, g.P, g.CF, g.iv(), scenario)
+		c.Op("T=%v period=%ds coldFactor=%d statInterval=%dms predecessor-family=%d scenario=%d", g.T, g.P, g.CF, g.iv(), g.Pre, scenario)
+		c.ClassIf(g.Pre != 0, "replaces-a-rule-of-another-family")
 		coldBound := int(math.Ceil(g.T/cf)) + 1
 		switch scenario {
 		case 0: // cold start, then saturating demand through the warm-up period
@@ -358,7 +390,7 @@ func sortInt64(a []int64) {
 // P9b (repaired): Threshold 0.5, period 1, cold factor 3 made the threshold NaN = unlimited admission.
 func TestP_RegressP9NaN(t *testing.T) {
 	hx.Plain(t, func(c *hx.Case) {
-		for _, g := range []cfg{{0.5, 1, 3, 0}, {0, 5, 0, 0}, {1, 1, 10, 0}} {
+		for _, g := range []cfg{{0.5, 1, 3, 0, 0}, {0, 5, 0, 0, 0}, {1, 1, 10, 0, 0}} {
 			hx.Reset(hx.Epoch)
 			flow.LoadRules([]*flow.Rule{{Resource: "w", Threshold: g.T, TokenCalculateStrategy: flow.WarmUp, ControlBehavior: flow.Reject, WarmUpPeriodSec: g.P, WarmUpColdFactor: g.CF}})
 			per := demand(0, 3, 10)
